@@ -136,11 +136,23 @@ def _wrap_hdr(fn):
     return lambda a, *rest: fn(_HdrArgs(a), *rest)
 
 
+class _HdrView:
+    def __init__(self, obj):
+        self.ref = obj
+        self.attrs = dict(obj.fields["__attrs"])
+
+
+class _HdrModel:
+    def view(self, en, obj):
+        return _HdrView(obj)
+
+
 def _hdr_maker(en, name, **kw):
     from odfdo.header import Header
-    from pyvc.attrmodel import ATTR
     from pyvc.engine import ObjV
-    return ObjV(Header, {"__attrs": {"text:outline-level": z3.Int(name + ".level")}}, model=ATTR)
+    from pyvc.xmlmodel import BaseModel
+    m = type("HdrModel", (BaseModel,), {"view": lambda self, en, obj: _HdrView(obj)})()
+    return ObjV(Header, {"__attrs": {"text:outline-level": z3.Int(name + ".level")}}, model=m)
 
 
 def _h_get_attribute_integer(en, con, vals, site):
